@@ -21,6 +21,10 @@ use std::time::SystemTime;
 use scion_sdk_token_validator::validator::Token;
 use serde::{Deserialize, Serialize};
 
+/// The largest expiration time (seconds since the UNIX epoch, 9999-12-31T23:59:59Z) a token's
+/// `exp` claim is taken to mean; larger values saturate here.
+pub(crate) const MAX_EXP_SECS: u64 = 253_402_300_799;
+
 /// A wrapper that can handle any version of SNAP token claims.
 ///
 /// It uses a custom deserializer to inspect the `ver` field:
